@@ -2,15 +2,16 @@
 """usage: tools/save_seed4.py <PROP> <first-result> <strengthening> <now>  -- copy /tmp/mut4_<PROP> to seeded/<PROP>-4, remove the worktree /tmp/wt4_<PROP>"""
 import json, os, shutil, subprocess, sys
 pid, first, stren, now = sys.argv[1:5]
-src = f"/tmp/mut4_{pid}"
-dst = f"/verif/seeded/{pid}-4"
+rnd = os.environ.get("ROUND", "4")
+src = f"/tmp/mut{rnd}_{pid}"
+dst = f"/verif/seeded/{pid}-{rnd}"
 os.makedirs(dst, exist_ok=True)
 for f in ("patch.diff", "demo.py"):
     shutil.copy(f"{src}/{f}", dst)
 m = json.load(open(f"{src}/meta.json"))
-m.update({"round": 4, "verified_by_us": "demo passes on the unchanged tree and fails with the change; the test suite passes with the change (only the baseline failure test_known_list_bad[5], flaky tests_rf aside); tools/try_seed4.sh (the check ran against the scratch worktree, /repo untouched)",
+m.update({"round": int(rnd), "verified_by_us": "demo passes on the unchanged tree and fails with the change; the test suite passes with the change (only the baseline failure test_known_list_bad[5], flaky tests_rf aside); tools/try_seed4.sh (the check ran against the scratch worktree, /repo untouched)",
           "our_check_first_result": first, "strengthening": stren, "our_check_now": now})
 json.dump(m, open(f"{dst}/meta.json", "w"), indent=1)
-subprocess.run(["git", "-C", "/repo", "worktree", "remove", "--force", f"/tmp/wt4_{pid}"])
+subprocess.run(["git", "-C", "/repo", "worktree", "remove", "--force", f"/tmp/wt{rnd}_{pid}"])
 shutil.rmtree(src, ignore_errors=True)
 print("saved", dst)
